@@ -427,7 +427,8 @@ def run(tier):
         if k in acc and (waited or plans[k]["cs"]["n"] >= 4096):
             nontrivial.add(("conn", k))
     chk.evaluations += nev
-    chk.extra.update({"transfer_plans": len(plans), "connections_accepted": len(acc), "events_logged": nev})
+    chk.extra.update({"transfer_plans": len(plans), "connections_accepted": len(acc), "events_logged": nev,
+                      "plans_not_run_after_hangs": sum(1 for k, c in enumerate(conns) if c is None and k not in incidents)})
     chk.sample({"plan": plans[0]["klass"], "client_events": [(e["op"], e.get("req"), e["res"], e.get("n")) for e in (conns[0] or {"c": []})["c"][:6]]})
 
     # ---- 3. descriptor passing on real sockets, control buffer against a guard page
@@ -491,3 +492,53 @@ def replay(path):
         return 1 if inc else 0
     print("replay of mode %s: rerun ./bin/check C16 quick" % rp["mode"])
     return 0
+
+
+def selftest():
+    """Anti-vacuity: a recorded connection is accepted; corrupted copies are rejected."""
+    import copy
+    chk = core.Check("C16", "selftest", "model_checking")
+    bindir = core.cargo_build(bins=["netops"])
+    plan = {"fam": "tcp", "closer": "c", "klass": {}, "accept": {"kind": "timeout", "d_us": 1000, "then": "plain"}, "connect": {"kind": "plain"},
+            "connect_delay_ms": 15, "sndbuf": 4096, "rcvbuf": 4096,
+            "cs": {"n": 70000, "wchunks": [65536], "rchunks": [4096], "reader_delay_ms": 10, "read_to_us": 1000},
+            "sc": {"n": 5, "wchunks": [1], "rchunks": [3], "writer_delay_ms": 5, "read_to_us": 1000}}
+    conns, inc = run_stream(chk, bindir, [plan], nproc=1)
+    good = conns[0]
+    variants = {"unchanged": good}
+
+    def first(side, pred, c):
+        return next(e for e in c[side] if pred(e))
+    v = copy.deepcopy(good)
+    first("s", lambda e: e["op"] in ("read", "read_to") and e["res"] == "ok", v)["match"] = False
+    variants["payload_mismatch"] = v
+    v = copy.deepcopy(good)
+    v["c"].remove([e for e in v["c"] if e["op"] == "write"][-1])
+    variants["last_write_event_dropped"] = v
+    v = copy.deepcopy(good)
+    e = first("s", lambda e: e["res"] == "timeout", v)
+    e["t1"] = e["t0"] + e["d"] - 1
+    variants["timeout_one_us_early"] = v
+    v = copy.deepcopy(good)
+    e = [x for x in v["s"] if x["op"] in ("read", "read_to") and x["res"] == "ok"][1]
+    e["off"] -= 1
+    variants["byte_delivered_twice"] = v
+    v = copy.deepcopy(good)
+    first("s", lambda e: e["op"].startswith("accept") and e["res"] == "ok", v)["s"] = 0
+    first("s", lambda e: e["op"].startswith("accept") and e["res"] == "ok", v)["e"] = 0
+    variants["accept_before_anybody_connected"] = v
+    ok = True
+    for name, c in variants.items():
+        acc, rejected, fr = judge_stream(chk, [c], [plan])
+        verdict = "accepted" if acc else "rejected (%s)" % explain_conn(rejected[0], fr.get(rejected[0]["id"]))[1][:90]
+        print("selftest %-34s %s" % (name, verdict))
+        ok &= verdict.startswith("accepted" if name == "unchanged" else "rejected")
+    recs = [{"kind": "fdpass", "n": 2, "ctrl": 24, "creds": False, "res": "ok", "delivered": [1, 2], "ctrunc": False, "fresh": True, "data_ok": True, "words": [], "out": []},
+            {"kind": "fdpass", "n": 2, "ctrl": 24, "creds": False, "res": "ok", "delivered": [2, 1], "ctrunc": False, "fresh": True, "data_ok": True, "words": [], "out": []},
+            {"kind": "fdpass", "n": 2, "ctrl": 20, "creds": False, "res": "ok", "delivered": [1], "ctrunc": False, "fresh": True, "data_ok": True, "words": [], "out": []},
+            {"kind": "iter", "n": 1, "ctrl": 20, "creds": False, "res": "ok", "delivered": [], "ctrunc": False, "fresh": True, "data_ok": True, "words": [20, 0, 1, 1, 11], "out": [11, 7777]}]
+    bad = judge_cmsg(chk, recs, "selftest")
+    print("selftest cmsg judge rejects", bad, "(expected [1, 2, 3])")
+    ok &= bad == [1, 2, 3]
+    print("C16 selftest", "OK" if ok else "FAILED")
+    return 0 if ok else 2
